@@ -27,7 +27,7 @@ import vcheck
 LEVEL = "proof"
 MODEL_FILES = ["Namer/Namer.v", "Namer/NamerProofs.v", "Namer/SanitizeProofs.v", "Namer/NamerInv.v",
                "Namer/SpecBase.v", "Namer/SpecHlsl.v", "Namer/SpecMsl.v", "Namer/SpecGlsl.v", "Namer/NamerInst.v"]
-WANT = ["hlsl", "msl", "glsl"]
+WANT = ["hlsl", "msl", "msl_vpt", "glsl"]
 
 # Classes of spellings the writers generate themselves without asking the namer (stable keys for findings;
 # first match wins; `zq..v` are the benign baseline names of user entities).
@@ -115,11 +115,12 @@ def outputs(r):
         return None
     if "err" in r:
         return None
-    for b in ("hlsl", "msl"):
+    for b, key in (("hlsl", "hlsl"), ("msl", "msl"), ("msl_vpt", "msl:vpt")):
+        # msl:vpt = MSL with the vertex-pulling transform over every @location vertex input (only for modules that have one)
         if b in r:
-            out[b] = (r[b], r.get(b + "_info"))
+            out[key] = (r[b], r.get(b + "_info"))
         elif b + "_err" in r:
-            out[b] = ("ERR", r.get(b + "_err"))
+            out[key] = ("ERR", r.get(b + "_err"))
     for ep, v in (r.get("glsl") or {}).items():
         if "text" in v:
             out["glsl:" + ep] = (v["text"], v.get("info"))
@@ -277,7 +278,7 @@ def whole_program(ctx, tools, spec, tables, n_corpus, n_variants, rep):
     others = [c for c in allc if c not in res_sh]
     n_res = min(len(res_sh), max(1, n_corpus // 3)) if n_corpus < len(allc) else len(res_sh)
     corpus = res_sh[:n_res] + others[:max(0, n_corpus - n_res)] if n_corpus < len(allc) else allc
-    progs = list(P.SMALL_PROGRAMS) + corpus
+    progs = list(P.SMALL_PROGRAMS) + list(P.BUILTIN_PROGRAMS) + corpus
     toks = lexcorr.tokens_impl(tools, [s.encode("utf-8", "surrogateescape") for _, s in progs])
     kwpool = sorted(set(spec["hlsl"]) | set(spec["msl"]) | set(spec["glsl"]) | set(spec["hlsl_ci"]) |
                     set(tables["hlsl_keywords"]) | set(tables["msl_keywords"]) | set(tables["glsl_keywords"]) |
@@ -355,6 +356,17 @@ def whole_program(ctx, tools, spec, tables, n_corpus, n_variants, rep):
         stats["generated_names_tried_local"] += len(gen_targets) - len(unc_l)
         stats["generated_names_no_entity"] += len(unc_m) + len(unc_l)
         systematic = [("generated_module", pl) for pl in plans_m] + [("generated_local", pl) for pl in plans_l]
+        # merges: a struct member takes the spelling of a module-scope or local entity (members are a namespace of their
+        # own in WGSL, so nothing changes there); every reference of the output must keep resolving as in the baseline
+        members = sorted(nm for nm in c["names"] if sc.get(nm) == {"member"})
+        others = sorted(nm for nm in c["names"] if "member" not in sc.get(nm, ()))
+        small = c["name"].startswith("c16_")
+        pairs = [(m_, o_) for m_ in members for o_ in others]
+        if not small:
+            pairs = rng.fork("merge/" + c["name"]).shuffle(pairs)[:4]
+        for m_, o_ in pairs[:80]:
+            systematic.append(("member_merge", {m_: o_}))
+        stats["member_merges"] = stats.get("member_merges", 0) + len(pairs[:80])
         r = rng.fork("prog/" + c["name"])
         for kind, plan in systematic + make_variants(r, c["names"], idents, pools, harvest, n_variants):
             vlex = P.rename(c["lex"], c["kinds"], c["frozen"], plan)
